@@ -437,6 +437,13 @@ func Bin(op string, a, b *Term) *Term {
 			if isNilTerm(pr[0]) && pr[1].Op == OGlobal && NonNilGlobal != nil && pr[1].Obj != nil && NonNilGlobal(pr[1].Obj) {
 				return &Term{Op: OConst, C: constant.MakeBool(op == "!="), Typ: types.Typ[types.Bool]}
 			}
+			// errs.Wrap(x, ...) is nil exactly when x is nil (github.com/goark/errs: Wrap returns nil for a nil
+			// error and a non-nil *Error otherwise)
+			if isNilTerm(pr[0]) && pr[1].Op == OCall && len(pr[1].Args) >= 1 {
+				if fn, ok := pr[1].Obj.(*types.Func); ok && fn.FullName() == "github.com/goark/errs.Wrap" {
+					return Bin(op, pr[1].Args[0], pr[0])
+				}
+			}
 		}
 	}
 	// comparisons of two integer constants or two string constants fold
